@@ -6,8 +6,8 @@ func freshT(t *T) bool {
 	return t.failed == "" && len(t.cleanups) == 0 && t.ctx == nil && t.cancelCtx == nil && !t.cleaning.Load()
 }
 
-var alphaMain = []uint8{opReturn, opDrawBool, opErrorf, opFail, opFatalA, opFailNow, opPanicStr, opPanicErr, opNilDeref, opSkip, opCleanup, opCtx, opCustom}
-var alphaSub = []uint8{opReturn, opDrawBool, opErrorf, opFatalB, opPanicStr, opSkip, opCtx, opCleanup}
+var alphaMain = []uint8{opReturn, opDrawBool, opErrorf, opErrorEmpty, opPanicNil, opFail, opFatalA, opFailNow, opPanicStr, opPanicErr, opNilDeref, opSkip, opCleanup, opCtx, opCustom}
+var alphaSub = []uint8{opReturn, opDrawBool, opErrorf, opErrorEmpty, opFatalB, opPanicStr, opSkip, opCtx, opCleanup}
 
 const (
 	modeC02 = iota
@@ -42,7 +42,9 @@ func tstate(mode int) {
 	switch mode {
 	case modeC02:
 		if inv.signals > 0 {
-			if inv.rawPanics > 0 && inv.cleanupInvalid > 0 {
+			if inv.panicNil > 0 && inv.signals == inv.panicNil {
+				vassert(failure, "C02: panic(nil) in user code was not treated as a failure")
+			} else if inv.rawPanics > 0 && inv.cleanupInvalid > 0 {
 				// Go semantics: a panic raised by a deferred call supersedes the one in flight
 				vassert(failure, "C02: a panic in user code was superseded by invalid data (skip/overrun) raised in a cleanup callback and the failure was lost")
 			} else {
